@@ -881,7 +881,10 @@ def c08_case(case, R):
     if sb.active:
         R.count("t1t_c08_step_budget_armed")
         R.max("t1t_c08_source_lines_per_evaluation", sb.count)
-    if out == "ndef" and octets and not (case.get("script") or {}).get("kind", "").startswith("replace"):
+    if (out == "ndef" and octets and not (case.get("script") or {}).get("kind", "").startswith("replace")
+            and case.get("beyond") != "mirror"):
+        # (with address mirroring the physical bytes of blocks Dh/Eh are also visible at addresses inside the
+        #  declared data area, so inverting them legitimately changes the octets: no verdict there)
         # non-interference: octets must not depend on bytes outside the declared data area or on block Dh/Eh
         img = bytearray(case["image"])
         declared = (img[10] + 1) * 8
